@@ -10,7 +10,7 @@ from __future__ import annotations
 
 from typing import Any, Dict, List, Optional
 
-from ..kit import Case, Ctx, calls, kw, loops, normal_paths, poly_of, rule, short, stores, table_check_cases
+from ..kit import caller_ok, Case, Ctx, calls, kw, loops, normal_paths, poly_of, rule, short, stores, table_check_cases
 from ..paths import Event, Path
 from ..terms import NONE, Term, diff_const, key, strip_ver, subterms
 
@@ -106,7 +106,7 @@ def r2(ctx: Ctx) -> None:
                 continue
             if not w.recv and w.func.cls is not None and w.func.cls.name not in ("Fundamentals", "Market"):
                 continue
-            ctx.check(w.func.qualname in allowed, w.func, w.node, f"writer of Fundamentals.{attr}", "Fundamentals.* | Market.change_fundamental_price", w.func.qualname)
+            ctx.check(caller_ok(ctx, w.func, lambda g: g.qualname in allowed), w.func, w.node, f"writer of Fundamentals.{attr}", "Fundamentals.* | Market.change_fundamental_price", w.func.qualname)
 
 
 @rule("C12.R3", "a shock multiplies the current fundamental by the scale, records it in the market's and the generator's series at the current time and restarts generation from now", "T7", floor=2)
@@ -141,7 +141,7 @@ def r3(ctx: Ctx) -> None:
                   f"own={[short(e.target) + ':=' + short(e.value) for e in own]}, generator={[short(e.target) for e in gen]}, point={[short(e.value) for e in gu]}, other effects={len(others)}, loops={len(loops_)}")
     # who may call it
     for s in ctx.cg.sites_calling("Market.change_fundamental_price"):
-        ok = s.caller.cls is not None and ctx.program.is_subclass(s.caller.cls.name, "EventABC")
+        ok = caller_ok(ctx, s.caller, lambda g: g.cls is not None and ctx.program.is_subclass(g.cls.name, "EventABC"))
         ctx.check(ok, s.caller, s.node, "caller of change_fundamental_price", "an event handler", s.caller.qualname)
 
 
